@@ -6,6 +6,7 @@ def plan(tier, seed):
     J = lambda i, f, **p: {"id": "C15:" + i, "module": "vf.evaljobs", "func": f, "params": p}  # noqa: E731
     jobs = [J("dihedral8 B=2", "augment_job", fn="dihedral8", k=8, B=2), J("symmetric k=2 B=2", "augment_job", fn="symmetric", k=2, B=2),
             J("symmetric k=3 B=1", "augment_job", fn="symmetric", k=3, B=1), J("loader N=3 bs=2", "loader_job", N=3, batch_size=2, n=3),
+            J("loader N=4 bs=2 lengths 2,4", "loader_job", N=4, batch_size=2, n=3, lengths=[2, 4]), J("loader N=5 bs=2 lengths 3,2,4", "loader_job", N=5, batch_size=2, n=3, lengths=[3, 2, 4]),
             J("dihedral8 B=2 first copy augmented too", "augment_job", fn="dihedral8", k=8, B=2, first_aug_identity=False),
             J("symmetric k=2 B=2 first copy augmented too", "augment_job", fn="symmetric", k=2, B=2, first_aug_identity=False)]
     for m in ("greedy", "augment", "multistart"):
@@ -17,7 +18,7 @@ def plan(tier, seed):
                  J("eval multistart_augment B=2", "eval_job", method="multistart_augment", B=2, k=2, S=2, n=3), J("eval augment k=3", "eval_job", method="augment", B=2, k=3, S=2, n=3),
                  J("eval multistart S=3", "eval_job", method="multistart", B=2, k=2, S=3, n=3)]
     return {"jobs": jobs, "level": "model_checking",
-            "bounds": "augmentation: B<=2 instances of 2 points, k<=8 copies, all coordinates and rotation angles symbolic (exact polynomial encoding); evaluation: B<=2 per loader batch, k,S<=3, TSP n=3, candidate action sequences arbitrary symbolic permutations; loaders with a final partial batch",
+            "bounds": "augmentation: B<=2 instances of 2 points, k<=8 copies, all coordinates and rotation angles symbolic (exact polynomial encoding); evaluation: B<=2 per loader batch, k,S<=3, TSP n=3, candidate action sequences arbitrary symbolic permutations; loaders with a final partial batch and with batches of different solution length",
             "outside": "SamplingEval (its selection happens inside the policy: see C11/C12 best-selection); other environments' rewards (C03)"}
 
 
